@@ -421,6 +421,10 @@ class Gen:
         for gi in range(r.choice([1, 1, 1, 2])):
             src, ek = self._comp_source(d)
             name = f"c{self.newtag()}"
+            if gi == 0 and self.vars and r.random() < 0.2 and self.on("comprehension_outer_falsy_shadow"):
+                # the loop variable shadows a variable of the program (whatever it holds, falsy values too): it must be intact afterwards
+                name = r.choice(sorted(self.vars))
+                self.features.add("comprehension_outer_falsy_shadow")
             bound.append((name, ek))
             clause = f"for {name} in {src}"
             if r.random() < 0.4:
